@@ -142,8 +142,10 @@ def planeParamsFromPoints(pt1, pt2, pt3):
     normal = vect(d12, d13)
     normal_len2 = mag2(normal)
     # the test must not depend on the length unit: three points a few
-    # millimetres apart are not collinear
-    if normal_len2 <= 1e-10 * mag2(d12) * mag2(d13):
+    # millimetres apart are not collinear, nor are the corners of a long
+    # and very thin facet (the sine of the angle between the two edges is
+    # compared with 1e-10)
+    if normal_len2 <= 1e-20 * mag2(d12) * mag2(d13):
         raise ValueError('Cannot convert plane from three points because the '
                          'points are collinear or almost so: '
                          f'{pt1}, {pt2}, {pt3}')
